@@ -96,7 +96,7 @@ pub fn pad(v: f32) -> f32 {
 /// extracting the css tag of inside of a shape fragment
 pub mod parser {
 
-    use pom::parser::{is_a, list, none_of, one_of, sym, tag, Parser};
+    use pom::parser::{end, is_a, list, none_of, one_of, sym, tag, Parser};
     use std::iter::FromIterator;
 
     /// Parses a list with the defined separator, but will fail early when one of the
@@ -225,7 +225,9 @@ pub mod parser {
     ///  b = {stroke: blue}
     ///
     fn css_legend<'a>() -> Parser<'a, char, Vec<(String, String)>> {
-        (space() - sym('#') - space() - tag("Legend:") - space() - new_line())
+        // the header line may also be the very last line, without a line ending
+        (space() - sym('#') - space() - tag("Legend:") - space()
+            - (new_line() | end()))
             * css_style_list()
     }
 
